@@ -62,9 +62,11 @@ pub fn canonical_diff_opts(a_img: &[u8], a: &Image, b_img: &[u8], b: &Image, opt
     }
     // memory list as a multiset (volatile stacks by address only)
     let vol_stacks: Vec<u64> = tha.iter().chain(thb.iter()).filter(|t| volatile_tids.contains(&t.tid)).map(|t| t.stack_start).collect();
-    let key = |img: &[u8], m: &image::MemDesc| -> (u64, u32, u64) { (m.start, m.size, if vol_stacks.contains(&m.start) { 0 } else { blob(img, m.rva, m.size) }) };
-    let mut ma: Vec<(u64, u32, u64)> = a.memory.clone().unwrap_or_default().iter().map(|m| key(a_img, m)).collect();
-    let mut mb: Vec<(u64, u32, u64)> = b.memory.clone().unwrap_or_default().iter().map(|m| key(b_img, m)).collect();
+    // the stack of a running thread may start on another page and have another size from one dump
+    // to the next: those descriptors are left out here (their presence is compared above)
+    let key = |img: &[u8], m: &image::MemDesc| -> (u64, u32, u64) { (m.start, m.size, blob(img, m.rva, m.size)) };
+    let mut ma: Vec<(u64, u32, u64)> = a.memory.clone().unwrap_or_default().iter().filter(|m| !vol_stacks.contains(&m.start)).map(|m| key(a_img, m)).collect();
+    let mut mb: Vec<(u64, u32, u64)> = b.memory.clone().unwrap_or_default().iter().filter(|m| !vol_stacks.contains(&m.start)).map(|m| key(b_img, m)).collect();
     ma.sort();
     mb.sort();
     if ma != mb {
